@@ -167,6 +167,27 @@ def check(ctx):
         probe, rc = strace_child(["newfs", "mkdir d1", "list d1"], scratch)
         if probe != ["ok", "ok", "names -"]:
             raise C.Infra("strace unavailable: %r" % probe)
+        # ---- durable before visible, read off the system calls of one undisturbed call: everything written to the temporary file,
+        #      then fsync of it, and only then the rename that makes the name visible
+        tf = os.path.join(scratch, "order.trace")
+        order_ops = ["newfs", "mkdir d1", "atomic d1 a %s" % hexdata(random.Random(ctx.seed), 5000)]
+        strace_child(order_ops, scratch, trace_file=tf)
+        recs = [(m.group(1), m.group(2)) for m in (REC.match(l) for l in open(tf)) if m]
+        os.remove(tf)
+        shutil.rmtree(os.path.join(scratch, "fsroot-dir"), ignore_errors=True)
+        st = max(i for i, r in enumerate(recs) if r[0] == "openat" and ".tmp\"" in r[1])
+        seq = [r[0] for r in recs[st:]]
+        seq = seq[: seq.index("close") + 1] if "close" in seq else seq      # the call ends with the deferred close of the temporary file
+        stats["syscall_order_checks"] += 1
+        i_ren = seq.index("renameat") if "renameat" in seq else None
+        i_fs = seq.index("fsync") if "fsync" in seq else None
+        last_w = max((i for i, n in enumerate(seq) if n == "write"), default=None)
+        if (i_ren is None or i_fs is None or last_w is None or not (last_w < i_fs < i_ren)) and not found:
+            found = True
+            stats["spec_failures"] += 1
+            ctx.violation("counterexample", "AtomicCreate: the data is not flushed before the name becomes visible (order of the system calls of one call)",
+                          {"proto": "fs-syscall-order", "ops": order_ops[:2] + ["atomic d1 a <5000 bytes>"]},
+                          expected="openat(tmp) … write … fsync(tmp) … renameat(tmp, d1/a)", observed=seq[:12])
         for sc in scs:
             res = run_scenario(sc, scratch)
             if res is None:
@@ -240,6 +261,50 @@ def check(ctx):
                 stats["spec_failures"] += 1
                 ctx.violation("counterexample", "AtomicCreate over a leftover temporary file of the same name (earlier interrupted call, recycled pid)",
                               {"proto": "fs-leftover", "ops": ops}, expected=want, observed=got)
+        # ---- sequential non-interference: AtomicCreate among creates, deletes and links of OTHER names; every name keeps
+        #      exactly its own contents (both implementations against the reference model of Model/Fs.lean)
+        names = ["a", "b", "c", "d", "e.tmp", "e"]
+        for h in range(12 if ctx.tier == "quick" else 300):
+            ops = ["newfs", "mkdir d1", "mkdir d2"]
+            live = {}
+            nfd = 0
+            for i in range(rnd.randrange(6, 22)):
+                d, n = rnd.choice(["d1", "d2"]), rnd.choice(names)
+                k = rnd.randrange(10)
+                if k < 5:
+                    ops.append("atomic %s %s %s" % (d, n, hexdata(rnd, rnd.choice([0, 1, 7, 40, 300]))))
+                    live[(d, n)] = True
+                elif k < 8 and live:
+                    dd, nn = rnd.choice(sorted(live))
+                    ops.append("delete %s %s" % (dd, nn))
+                    del live[(dd, nn)]
+                elif live:
+                    dd, nn = rnd.choice(sorted(live))
+                    n2 = rnd.choice(names)
+                    ops.append("link %s %s %s %s" % (dd, nn, d, n2))
+                    if (d, n2) not in live:
+                        live[(d, n2)] = True
+                # read every live name back after every step
+                if i % 3 == 2 or k >= 5:
+                    for (dd, nn) in sorted(live):
+                        ops.append("open %s %s" % (dd, nn))
+                        ops.append("readat %d 0 100000" % nfd)
+                        ops.append("close %d" % nfd)
+                        nfd += 1
+            ops += ["list d1", "list d2"]
+            want = c12.model_run("ref", ops)
+            if any(x in ("invalid", "bad-op") for x in want):
+                raise C.Infra("C13 generator: history the reference model calls invalid: %s" % ops[:30])
+            for impl in ("mem", "dir"):
+                shutil.rmtree(os.path.join(scratch, "fsroot-dir"), ignore_errors=True)
+                got = c12.run_real(impl, ops, scratch)
+                stats["sequential_histories"] += 1
+                if got != want and not found:
+                    found = True
+                    stats["spec_failures"] += 1
+                    k = next(i for i in range(len(ops)) if got[i] != want[i])
+                    ctx.violation("counterexample", "AtomicCreate / Delete / Link of one name disturbs another name (%s implementation vs the reference model)" % impl,
+                                  {"proto": "fs", "impl": impl, "ops": ops[:k + 1]}, expected=want[:k + 1][-6:], observed=got[:k + 1][-6:])
     finally:
         shutil.rmtree(scratch, ignore_errors=True)
     # interference: concurrent creators of different names / in different directories / of one name,
